@@ -972,3 +972,107 @@ func boundedAtCalls(p *Prog, fn *ssa.Function, par *ssa.Parameter, d int) bool {
 	}
 	return k > 0
 }
+
+// ---------- caller-owned slices that the library appends to are copied first ----------
+
+// paramSlicesNotGrown: a slice parameter (variadic or not) that is stored into a field is never grown or written
+// through that field: if some function of the package appends to the field (and stores the result back) or assigns an
+// element of it, the storing function must have copied the parameter. `append` on an adopted slice with spare capacity
+// writes into the caller's backing array — two objects built from one slice then overwrite each other's elements.
+func paramSlicesNotGrown(p *Prog, r *Reporter) {
+	type fkey struct {
+		owner string
+		field string
+	}
+	// fields that are grown / element-written somewhere
+	grown := map[fkey]string{}
+	for _, fn := range p.Funcs {
+		if !p.isArche(fn) {
+			continue
+		}
+		for _, b := range fn.Blocks {
+			for _, ins := range b.Instrs {
+				st, ok := ins.(*ssa.Store)
+				if !ok {
+					continue
+				}
+				// field = append(field, …)
+				if fa, ok := st.Addr.(*ssa.FieldAddr); ok {
+					if c := callOf(st.Val); c != nil {
+						if bi, ok := c.Call.Value.(*ssa.Builtin); ok && bi.Name() == "append" {
+							if o, f, _, ok := loadedField(c.Call.Args[0]); ok && f == fieldName(fa.X.Type(), fa.Field) {
+								grown[fkey{o, f}] = p.Pos(st.Pos())
+							}
+						}
+					}
+				}
+				// field[i] = v
+				if ia, ok := st.Addr.(*ssa.IndexAddr); ok {
+					if o, f, _, ok := loadedField(ia.X); ok {
+						if _, isSl := ia.X.Type().Underlying().(*types.Slice); isSl {
+							if _, done := grown[fkey{o, f}]; !done {
+								grown[fkey{o, f}] = p.Pos(st.Pos())
+							}
+						}
+					}
+				}
+			}
+		}
+	}
+	n := 0
+	for _, fn := range p.Funcs {
+		if !p.isArche(fn) {
+			continue
+		}
+		for _, b := range fn.Blocks {
+			for _, ins := range b.Instrs {
+				st, ok := ins.(*ssa.Store)
+				if !ok {
+					continue
+				}
+				fa, ok := st.Addr.(*ssa.FieldAddr)
+				if !ok {
+					continue
+				}
+				if _, isSl := st.Val.Type().Underlying().(*types.Slice); !isSl {
+					continue
+				}
+				// the stored value is a parameter of an exported function (possibly re-sliced)
+				v := st.Val
+				for {
+					if sl, ok := v.(*ssa.Slice); ok {
+						v = sl.X
+						continue
+					}
+					if ct, ok := v.(*ssa.ChangeType); ok {
+						v = ct.X
+						continue
+					}
+					break
+				}
+				par, ok := v.(*ssa.Parameter)
+				if !ok {
+					continue
+				}
+				root := fn
+				for root.Parent() != nil {
+					root = root.Parent()
+				}
+				if root.Object() == nil || !root.Object().Exported() {
+					continue
+				}
+				n++
+				k := fkey{typeName(fa.X.Type()), fieldName(fa.X.Type(), fa.Field)}
+				construct := fmt.Sprintf("stores parameter %s into %s.%s", par.Name(), k.owner, k.field)
+				if at, isGrown := grown[k]; isGrown {
+					r.Bad(p.FuncName(fn), construct, p.Pos(st.Pos()), "the caller's slice is adopted as "+k.owner+"."+k.field+", which the library grows or writes at "+at+": an append within the slice's spare capacity writes into the caller's backing array, so two objects built from one slice overwrite each other's elements")
+				} else {
+					r.OK(p.FuncName(fn), construct, p.Pos(st.Pos()), "the field is only read afterwards (never appended to or element-assigned)")
+				}
+			}
+		}
+	}
+	if n == 0 {
+		r.Anchor("an exported function storing a slice parameter into a field")
+	}
+}
